@@ -1,4 +1,5 @@
 // C20 — trace log and image writers. Instrumented half.
+#include <pthread.h>
 #include <string>
 #include <thread>
 #include <vector>
@@ -42,7 +43,7 @@ void record(TraceRecorder *rec, int slot)
     if (p->named[slot])
       s.list->threadName = tname;
   }
-  c20t_thread_begin(slot, p->named[slot]);
+  c20t_thread_begin(slot, p->named[slot], (unsigned long long)pthread_self());
   for (int i = 0; i < p->bulk[slot]; i++) {
     s.marker(c20_name(i & 3), c20_cat(i % 3));
     c20t_recorded(slot, C20_MARKER, i & 3, i % 3, 0);
@@ -104,8 +105,13 @@ extern "C" void c20trace_run()
   }
   std::vector<std::thread> ths;
   int first = p->t0_records ? 1 : 0;
-  for (int t = first; t < p->nthreads; t++)
+  for (int t = first; t < p->nthreads; t++) {
     ths.emplace_back([=]() { record(rec, t); });
+    if (p->sequential) {
+      ths.back().join();
+      ths.pop_back();
+    }
+  }
   if (p->t0_records && p->nthreads > 0)
     record(rec, 0);
   for (auto &t : ths)
